@@ -385,9 +385,10 @@ class C06(Prop):
                             pos = [start]
 
                             def randn(*a):
-                                z = big[pos[0] % len(big)]
-                                pos[0] += 1
-                                return np.array([z]) if a else z
+                                n_ = int(np.prod(a)) if a else 1
+                                zz = [big[(pos[0] + i_) % len(big)] for i_ in range(n_)]
+                                pos[0] += n_
+                                return np.array(zz).reshape(a) if a else zz[0]
                             alg.xi = dict(xi)
                             np.random.randn = randn
                             try:
